@@ -2,7 +2,8 @@
    Only statements, closed by `exact`.  The full-strength statements that are not (yet) proved are the
    Definitions C11_*_statement of Proofs/Idna_Hyp.v; see theorem_notes in tools/props_d/C11.py. *)
 From RU Require Import Base.Prelude Base.Utf8 Base.U32_c13 Gen.Tables Model.Punycode Model.Uts46
-  Proofs.Idna_Sim Proofs.Idna_Api Proofs.Idna_Known Proofs.Idna_Hyp Proofs.Idna_Tables Proofs.Idna_Redisc.
+  Proofs.Idna_Sim Proofs.Idna_Api Proofs.Idna_Known Proofs.Idna_Hyp Proofs.Idna_Tables Proofs.Idna_Redisc
+  Proofs.Idna_C10_Deny Proofs.Idna_C10_Prefix Proofs.Idna_C10_Inner Proofs.Idna_Mark Proofs.Idna_MarkWalk Proofs.Idna_MarkFffd.
 
 (* the core: for EVERY adapter, the fail-fast run of process_inner returns early exactly when the
    marking run sets had_errors, and otherwise the two runs produce the same buffers *)
@@ -13,15 +14,15 @@ Check C11_inner_sim : forall A cfg hy deny d, Redisc A cfg deny ->
   inner_sim (process_inner A cfg true hy deny d) (process_inner A cfg false hy deny d).
 Print Assumptions C11_inner_sim.
 
-(* the premise Redisc follows from three elementary facts: the adapter maps the empty text to the
-   empty text, upper-case letters are in the deny list (C10_deny_upper: true of EMPTY, STD3, URL), and
-   has_punycode_prefix accepts exactly the sixteen spellings of xn-- on ASCII text (XnPrefixSpec, a
-   statement about the regenerated mask constants; sampled in C12_consts, not proved in general) *)
+(* the premise Redisc follows from two elementary facts: the adapter maps the empty text to the empty text (an
+   AdapterOK fact, H0), and upper-case letters are in the deny list (C10_deny_upper / C10_valid_deny: true of every
+   deny list the API can build).  The third ingredient, the characterisation of has_punycode_prefix on ASCII text
+   (XnPrefixSpec), is the theorem C10_xn_prefix and no longer a premise. *)
 Theorem C11_redisc : forall A cfg deny,
-  map_normalize A [] = [] -> DenyUpper deny -> XnPrefixSpec -> Redisc A cfg deny.
-Proof. exact redisc_holds. Qed.
+  map_normalize A [] = [] -> DenyUpper deny -> Redisc A cfg deny.
+Proof. exact redisc_of_adapter. Qed.
 Check C11_redisc : forall A cfg deny,
-  map_normalize A [] = [] -> DenyUpper deny -> XnPrefixSpec -> Redisc A cfg deny.
+  map_normalize A [] = [] -> DenyUpper deny -> Redisc A cfg deny.
 Print Assumptions C11_redisc.
 
 (* same verdict, API level: mark-errors error => fail-fast error; fail-fast error => mark-errors error,
@@ -40,6 +41,61 @@ Check C11_same_verdict_partial : forall A cfg d deny hy p b t e, Redisc A cfg de
   (e = true -> to_ascii A cfg d deny hy DIgnore = Err) /\
   (to_ascii A cfg d deny hy DIgnore = Err -> e = true \/ (cfg = false /\ b = true /\ t = d)).
 Print Assumptions C11_same_verdict_partial.
+
+(* THE SAME VERDICT, IN FULL (C11_same_verdict_statement): for every byte string, every deny list the API can build,
+   every hyphen mode and every output policy, outside the class Known_C11 of findings F-C11-1 / F-C11-2 and when
+   neither call panics, the fail-fast to_ascii reports an error exactly when the mark-errors to_user_interface does.
+   Only premise about the adapter: it maps the empty text to the empty text (AdapterOK H0, sampled by the harness). *)
+Theorem C11_same_verdict : forall A cfg, map_normalize A [] = [] -> C11_same_verdict_statement A cfg.
+Proof. exact c11_same_verdict_full. Qed.
+Check C11_same_verdict : forall A cfg, map_normalize A [] = [] -> forall d deny hy p, bytes d -> valid_deny deny ->
+  Known_C11 A cfg d deny hy = false ->
+  is_panic (to_ascii A cfg d deny hy DIgnore) = false -> ui_panics (to_user_interface A cfg d deny hy p) = false ->
+  res_err (to_ascii A cfg d deny hy DIgnore) = ui_err (to_user_interface A cfg d deny hy p).
+Print Assumptions C11_same_verdict.
+
+(* the adapter premise of C11_same_verdict cannot be dropped: with an adapter that maps the empty text to "a", the
+   label "xn--a-" is an error for to_ascii and no error for to_unicode, outside Known_C11 *)
+Theorem C11_same_verdict_unconditional_refuted : exists A, forall cfg, ~ C11_same_verdict_statement A cfg.
+Proof. exact c11_same_verdict_unconditional_refuted. Qed.
+Check C11_same_verdict_unconditional_refuted : exists A, forall cfg, ~ C11_same_verdict_statement A cfg.
+Print Assumptions C11_same_verdict_unconditional_refuted.
+
+(* the step behind it: when the marking run of process_inner has set had_errors, then outside Known_C11 process ends
+   in a validity error, a sink error or a panic - never in Passthrough or WroteToSink (any sinks, any policy) *)
+Theorem C11_mark_err_status : forall A cfg d deny hy p k1 k2 w ptu bd db ap,
+  process_inner A cfg false hy deny d = IRes ptu bd true db ap -> Known_C11 A cfg d deny hy = false ->
+  match fst (fst (process A cfg false p d deny hy k1 k2 w)) with PPassthrough | PWroteToSink => False | _ => True end.
+Proof. exact mark_err_status. Qed.
+Check C11_mark_err_status : forall A cfg d deny hy p k1 k2 w ptu bd db ap,
+  process_inner A cfg false hy deny d = IRes ptu bd true db ap -> Known_C11 A cfg d deny hy = false ->
+  match fst (fst (process A cfg false p d deny hy k1 k2 w)) with PPassthrough | PWroteToSink => False | _ => True end.
+Print Assumptions C11_mark_err_status.
+
+(* in the marking run had_errors is set exactly when domain_buffer contains U+FFFD (every adapter, every input):
+   the debug assertion of uts46.rs:789 cannot fire *)
+Theorem C11_had_errors_exact : forall A cfg hy deny d ptu bd he db ap,
+  process_inner A cfg false hy deny d = IRes ptu bd he db ap -> ptu <> len d -> he = existsb is_fffd db.
+Proof. exact mark_he_exact. Qed.
+Check C11_had_errors_exact : forall A cfg hy deny d ptu bd he db ap,
+  process_inner A cfg false hy deny d = IRes ptu bd he db ap -> ptu <> len d -> he = existsb is_fffd db.
+Print Assumptions C11_had_errors_exact.
+
+(* THE U+FFFD CLAUSES, IN FULL, for EVERY adapter (no premise), every byte string, every deny list, hyphen mode and
+   output policy.  (1) C11_err_fffd_statement: outside Known_C11, an error reported by to_user_interface / to_unicode
+   is visible as a U+FFFD in the returned text.  (2) C11_ok_no_fffd_statement: a text returned without error contains
+   no U+FFFD. *)
+Theorem C11_err_fffd : forall A cfg, C11_err_fffd_statement A cfg.
+Proof. exact c11_err_fffd_full. Qed.
+Check C11_err_fffd : forall A cfg d deny hy p, bytes d -> valid_deny deny -> Known_C11 A cfg d deny hy = false ->
+  ui_err (to_user_interface A cfg d deny hy p) = true -> In FFFD (ui_text (to_user_interface A cfg d deny hy p)).
+Print Assumptions C11_err_fffd.
+
+Theorem C11_ok_no_fffd : forall A cfg, C11_ok_no_fffd_statement A cfg.
+Proof. exact c11_ok_no_fffd_full. Qed.
+Check C11_ok_no_fffd : forall A cfg d deny hy p b t, bytes d -> valid_deny deny ->
+  to_user_interface A cfg d deny hy p = UI b t false -> ~ In FFFD t.
+Print Assumptions C11_ok_no_fffd.
 
 (* F-C11-2: inside Known_C11 the verdicts differ (no debug assertions) / the marking run panics (with) *)
 Theorem C11_same_verdict_refuted : exists A d deny hy p,
@@ -106,7 +162,8 @@ Check C11_consts :
 Print Assumptions C11_consts.
 
 Example C11_premises_hold :
+  map_normalize toy [] = [] /\ valid_deny DENY_STD3 /\ Known_C11 toy true [97; 45; 46; 98] DENY_STD3 HCheck = false /\
   to_ascii toy true [97; 45; 46; 98] DENY_STD3 HCheck DIgnore = Err /\
   to_unicode toy true [97; 45; 46; 98] DENY_STD3 HCheck = UI false [97; 65533; 46; 98] true /\
   to_ascii toy true [65; 46; 98] DENY_STD3 HCheck DIgnore = Ok (false, [97; 46; 98]).
-Proof. vm_compute. repeat split; reflexivity. Qed.
+Proof. split; [reflexivity|]. split; [left; reflexivity|]. vm_compute. repeat split; reflexivity. Qed.
